@@ -55,6 +55,19 @@ CLAIMED = {
                 "only by sequential histories; extraction; gcc-12 TSan and the schedules it happens to see. No axioms.",
         "technique": "Coq lockset/interleaving proofs over a source-regenerated lock table + extracted-model differential + ThreadSanitizer stress",
     },
+    "C12": {
+        "category": "proof",
+        "text": "Coq theorems (Properties_C12.v: C12_guarded, C12_functional, C12_table_complete, C12_find_meaning, C12_sequences) over the wrapper table regenerated on every run from "
+                "bootstrap_stl.hpp, chaiscript_stdlib.hpp and the prelude (115 rows: Vector, List, string, Map, Pair, Bidir_Range types; wrapper kind, forwarded argument order, exact "
+                "guard comparison, std:: operation). For all container states and arguments no wrapper leaves a std:: precondition unchecked (UB is an explicit outcome of the model) "
+                "and each equals its list-function specification; by induction over operation sequences of any length, with range views kept only across const observers, no step is "
+                "UB and the invariant holds. The model's std:: semantics are tied to libstdc++ by step-by-step sequence correspondence under ASan+UBSan+_GLIBCXX_ASSERTIONS.",
+        "design_ref": "DESIGN.md §6 C12",
+        "note": "Trusted: Coq kernel + vm_compute; translator t_StlWrappers.py; hand transcription of std:: preconditions/effects in ContDefs.v (validated by the correspondence, not proved "
+                "against the C++ standard); Boxed_Value aliasing of elements and overload choice between C++ and prelude functions are outside the model; modify-while-viewed is a "
+                "non-judged corpus entry; List is harness-instantiated. No axioms.",
+        "technique": "Coq proof over source-regenerated wrapper table + extracted-model differential sequences under sanitizers",
+    },
 }
 PENDING_REASON = "check not built yet in this round (work in progress; see DESIGN.md §6 for the planned Coq model and tie)"
 ALL = ["C%02d" % i for i in range(1, 21)]
